@@ -136,7 +136,8 @@ CLAIMED.update({
             "C03_judge_bridge_udp / _step / _step_no_tcp (judge_C03_event answers 0 on the model's output; for a TCP next hop one observation-side premise "
             "remains: when nothing was written the judge's connection bookkeeping must allow silence), C03_agree_step_udp (the judge's and the model's "
             "view of backends and connections stay in agreement along datagram events).",
-            PROXY_NOTE + TB_NOTE + "Service-name patterns within the regular-expression subset of Rx.v; which backend a pin selects is C04, rotation evenness C05.",
+            PROXY_NOTE + TB_NOTE + "Spirals (a Route set naming the proxy twice: the request is sent to the proxy's own socket and processed again) are played "
+            "by the component proxysp, model against code. Service-name patterns within the regular-expression subset of Rx.v; which backend a pin selects is C04, rotation evenness C05.",
             "Coq proof (request pipeline decomposition, route view over all Route headers) + decision-table differential run with independent judge"),
     "C06": ("Theorems for every request/header layout/position: C06_via_pushed + C06_via_position (exactly one Via naming the listener's transport/address/port with the event's branch, "
             "immediately above the first existing Via header, all others beneath in order), C06_rr_policy/_position/_flat (own <sip:addr:port;lr> ahead of all Record-Route entries iff one is "
